@@ -27,6 +27,13 @@ RULE = ('request side: routing depths 1..4 (thorough 1..8) built through Target.
         'sequence, command, completion code) at every depth must be dropped (no data, no completion code raised) and '
         'the intact copy behind it returned; the error acknowledgement of an EARLIER transaction (other sequence '
         'number) in front of the reply must not be raised for the request in hand, bridged or not.  '
+        'Retransmissions: Rmcp(max_retries = faults + 0..2) against a RESPONDING fake socket - the chain of specification '
+        'bridges and the target answer the datagram each attempt actually carried (every layer echoes the sequence number '
+        'it RECEIVED); 1..3 leading attempts end in a read time-out (datagram lost / answer lost / answer late, in front of '
+        'the next answer / acknowledged but the forwarded reply lost), crossed with routing depth 0..4 (thorough ..8), '
+        '0..2 bare acknowledgements, wrapped / plain / failing answer, first sequence numbers 0, 63, 1 and seeded: every '
+        'transmitted datagram must be the nest for the routing, the call must return exactly the target\'s reply (or the '
+        'failing layer\'s completion code); real code vs the Lean model of both loops (Bridge.retryBridged).  '
         'Histories: ONE Target object re-routed 2..5 times (Target(routing=...) / set_routing / '
         'set_routing_information, list and string form; longer, equal and SHORTER paths, sharing the leading hops of '
         'the previous path or not; a request through the object between the re-routings): after every re-routing '
@@ -50,6 +57,11 @@ ASSUMPTIONS = [
     'live SendMessageReq class every run',
     'the transport model covers acknowledgement skipping, unwrapping, filtering and the returned bytes; what happens '
     'to a frame that does not match (re-queue, retry accounting) is property C04 and is neither modelled nor generated here',
+    'retransmissions (Model/Bridge.lean: retryBridged; theorems retransmission_reply_returned / _error_reported / '
+    '_budget): the model sends the SAME datagram again and compares every attempt\'s frames with the SAME header and '
+    'bridge header; tied by the retransmission stream (every transmitted datagram and the outcome).  Whether a '
+    'retransmission MUST be byte-identical is not judged - only that it is the nest for the routing and that the answer '
+    'built from it is returned',
     'RMCP / session-header packing of the fake datagrams is not under test here (C05): auth type none, fixed layout',
     'the inner command is not Send Message itself, i.e. not (netFn App, command 34h) - as the property says; command '
     '34h in every OTHER network function is generated; header fields and addresses are naturals in range',
@@ -274,7 +286,22 @@ def lan_payload(pdu):
     return pdu[14:]
 
 
-def real_transport(sc, frames):
+class ResponderSock(FakeSock):
+    """UDP socket with the chain of bridges and the target behind it: `respond(k, frame)` is called with every
+    transmitted datagram (k = 0 for the first attempt) and returns the frames that arrive after it; when nothing
+    (more) arrives the read times out."""
+
+    def __init__(self, respond):
+        FakeSock.__init__(self, [])
+        self.respond = respond
+
+    def sendto(self, pdu, addr):
+        k = len(self.sent)
+        self.sent.append(bytes(pdu))
+        self.script.extend(lan_datagram(f) for f in self.respond(k, lan_payload(bytes(pdu))))
+
+
+def real_transport(sc, frames, sock=None):
     """Run one routed request through the real Rmcp with the fake socket; returns
     (transmitted IPMB frames, outcome tag)."""
     from pyipmi.interfaces.rmcp import Rmcp
@@ -282,7 +309,7 @@ def real_transport(sc, frames):
                 max_retries=sc.get('max_retries', 0))
     intf._session = None
     intf.host, intf.port = 'bmc', 623
-    sock = FakeSock([lan_datagram(f) for f in frames])
+    sock = sock if sock is not None else FakeSock([lan_datagram(f) for f in frames])
     intf._sock = sock
     intf.next_sequence_number = sc['seq0']
     if sc['routing']:
@@ -604,6 +631,190 @@ def judge_transport(ctx, drv, sc, check_model=True):
                     case, expected='1 datagram', observed='%d datagrams' % len(sent2))
         return False
     return True
+
+
+# ---------------------------------------------------------------------------------------
+# retransmissions: an attempt is lost, the chain of bridges answers the datagram it RECEIVED
+# ---------------------------------------------------------------------------------------
+
+FATES = ('lost', 'reply-lost', 'late', 'ack-only')
+FATE_TEXT = {'lost': 'the datagram is lost on its way to the first bridge', 'reply-lost': 'the answer is lost',
+             'late': 'the answer arrives only after the transport has given up waiting (in front of the answer to the '
+                     'next attempt)', 'ack-only': 'the acknowledgement(s) arrive, the forwarded reply is lost',
+             'answer': 'answered'}
+
+
+def run_transport_retry(drv, sc):
+    """the real Rmcp with max_retries >= 1 against the specification's chain of bridges: attempt k meets fate
+    sc['fates'][k] (every one of them ends in a read time-out), the attempt after them is answered.  Whatever is
+    answered is built by the specification side from the datagram that attempt actually carried: every bridge and
+    the target echo the sequence number of the request they RECEIVED.  -> (log per attempt, outcome tag)"""
+    routing = sc['routing']
+    n = max(0, len(routing) - 1)
+    last = routing[-1] if routing else (sc['slave'], sc['target'], 0)
+    payload = lean.unhex(sc['data'])
+    want_hops = [(r[1], r[0], r[2], 1) for r in routing[:-1]]
+    fates = list(sc['fates'])
+    log, held = [], []
+
+    def respond(k, tx):
+        fate = fates[k] if k < len(fates) else 'answer'
+        rec = {'tx': tx, 'fate': fate, 'problem': None, 'delivered': []}
+        log.append(rec)
+        out = list(held)
+        del held[:]
+        rec['delivered'] = out
+        # what is on the wire must be the nest for the routing whether or not it arrives
+        peeled = drv.ask('peel %d %s' % (n, lean.hexs(tx))) if tx is not None else 'none'
+        if peeled == 'none':
+            rec['problem'] = ('layer-rejected', 'a bridge refuses the datagram (no valid Send Message nest of depth %d)' % n,
+                              'valid Send Message nest', lean.hexs(tx) if tx is not None else 'no IPMI-over-LAN datagram')
+            return out
+        _, hops_s, inner = peeled.split()
+        hops = [] if hops_s == '-' else [tuple(int(x) for x in h.split(':')) for h in hops_s.split(';')]
+        if [h[:4] for h in hops] != want_hops:
+            rec['problem'] = ('hops', 'the bridges do not see the configured hops', [list(x) for x in want_hops],
+                              [list(x) for x in hops])
+            return out
+        p = drv.ask('parse ' + inner).split()
+        want = [last[1], sc['lun'], sc['netfn'], last[0], 0, None, sc['cmd']]
+        got = [int(x) for x in p[1:8]] if p and p[0] == 'some' and len(p) == 9 else None
+        if got is None or any(w is not None and w != g for w, g in zip(want, got)) or lean.unhex(p[8]) != payload:
+            rec['problem'] = ('inner-request', 'the target does not receive the original request',
+                              'some %s %s' % (' '.join('<seq>' if w is None else str(w) for w in want), lean.hexs(payload)),
+                              ' '.join(p))
+            return out
+        rec['seq'] = [h[4] for h in hops] + [got[5]]
+        if fate in ('lost', 'reply-lost'):
+            return out
+        frames, _ = transport_frames(drv, sc, tuple(got), hops)
+        if fate == 'ack-only':
+            frames = frames[:sc['acks']]
+        if fate == 'late':
+            held.extend(frames)
+            return out
+        out.extend(frames)
+        return out
+
+    sock = ResponderSock(respond)
+    _, out, unread = real_transport(sc, [], sock)
+    return log, out
+
+
+def model_retry(drv, bridge, inner_req, log, max_retries):
+    """the Lean model of both loops (Model/Bridge.lean: retryBridged): silence ends an attempt, the retransmission
+    is the SAME datagram compared with the SAME headers, max_retries + 1 transmissions"""
+    atts = '|'.join(';'.join(lean.hexs(f) for f in rec['delivered']) or '-' for rec in log)
+    return drv.ask('rtx %s %s %s 00011 %d %s' % (variants()['rcv'], bridge, hs(inner_req), max_retries + 1, atts))
+
+
+def judge_transport_retry(ctx, drv, sc, check_model=True, verbose=False):
+    case = dict(sc)
+    case['op'] = 'transport-retry'
+    case['routing'] = [list(r) for r in sc['routing']]
+    routing = sc['routing']
+    bridged = len(routing) > 1
+    seq = (sc['seq0'] + 1) % 64
+    last = routing[-1] if routing else (sc['slave'], sc['target'], 0)
+    hdr = (sc['target'], sc['lun'], sc['netfn'], sc['slave'], 0, seq, sc['cmd'])
+    payload = lean.unhex(sc['data'])
+    cmd34 = sc['cmd'] == SEND_MESSAGE
+    suffix = (':cmd-34h' if cmd34 else '') + ('' if bridged else ':unbridged')
+    log, out = run_transport_retry(drv, sc)
+    if verbose:
+        for k, rec in enumerate(log):
+            print('  attempt %d: %s  sequence numbers (layers.., request) %s - %s; arrives after it: %s' % (
+                k + 1, lean.hexs(rec['tx']) if rec['tx'] is not None else '?', rec.get('seq', '?'), FATE_TEXT[rec['fate']],
+                [lean.hexs(f) for f in rec['delivered']] or 'nothing'))
+        print('  result  : %s' % out)
+    if check_model:
+        m_tx = drv.ask('brg %s %s %d %s' % (rt(routing or [last]), hs(hdr), seq, lean.hexs(payload)))
+        for k, rec in enumerate(log):
+            real_tx = 'ok ' + (lean.hexs(rec['tx']) if rec['tx'] is not None else '?')
+            if m_tx != real_tx:
+                ctx.disagree('Rmcp tx, attempt %d' % (k + 1), case, m_tx, real_tx)
+                break
+        inner_req = (last[1], hdr[1], hdr[2], last[0], 0, seq, hdr[6])
+        m = model_retry(drv, seq if bridged else '-', inner_req, log, sc['max_retries'])
+        if m != 'sends=%d %s' % (len(log), out):
+            ctx.disagree('Rmcp retry', case, m, 'sends=%d %s' % (len(log), out))
+    for k, rec in enumerate(log):
+        if rec['problem']:
+            name, what, expected, observed = rec['problem']
+            ctx.violate('C09:transport:%s%s' % ('retransmission:' if k else '', name) + suffix,
+                        'attempt %d of a request (%s): %s' % (
+                            k + 1, 'first transmission' if not k else 'retransmission after a read time-out', what),
+                        case, expected=expected, observed=observed)
+            return False
+    if sc['final'] == 'error':
+        expect = 'CompletionCodeError:%d' % sc['cc']
+    else:
+        expect = 'ok ' + sc['body']
+    if out != expect:
+        story = ', '.join('attempt %d: %s' % (k + 1, FATE_TEXT[f]) for k, f in enumerate(sc['fates']))
+        tail = ('; attempt %d is answered by the chain of bridges with the sequence numbers it carried; max_retries %d: %s'
+                % (len(sc['fates']) + 1, sc['max_retries'], out))
+        if sc['final'] == 'error':
+            sig = 'C09:transport:retransmission:error-code'
+            what = 'the failing Send Message of a RETRANSMITTED request is not reported with its completion code'
+        elif sc.get('acks') or 'ack-only' in sc['fates']:
+            sig = 'C09:transport:retransmission:ack-not-awaited'
+            what = ('after the bare Send Message acknowledgement of a RETRANSMITTED request the transport does not wait '
+                    'for (and return) the forwarded reply')
+        else:
+            sig = 'C09:transport:retransmission:reply'
+            what = 'the %s request does not return the target\'s reply when it had to be RETRANSMITTED' % (
+                'routed' if bridged else 'un-bridged')
+        ctx.violate(sig + suffix, what + ' (' + story + tail + ')', case, expected=expect, observed=out)
+        return False
+    return True
+
+
+def _run_transport_retry(ctx, drv, rng, depths, rounds):
+    """fault sequences (1..3 attempts that end in a read time-out: datagram lost / answer lost / answer late /
+    acknowledged but the forwarded reply lost) x routing depth 0..max x 0..2 bare acknowledgements x wrapped /
+    plain / failing answer x starting sequence numbers (wrap-around included) x max_retries = faults + 0..2"""
+    seq0s = (0, 62, 63, None)
+    i = 0
+    for rnd in range(rounds):
+        for d in [0] + list(depths):
+            finals = ['wrapped', 'plain'] + (['error'] if d >= 2 else [])
+            for final in finals:
+                if d < 2 and final == 'plain':
+                    continue
+                for acks in ((0, 1, 2) if d >= 2 else (0,)):
+                    seqs = [[f] for f in FATES] + [[rng.choice(FATES) for _ in range(k)] for k in (2, 2, 3)]
+                    for fates in seqs:
+                        if ctx.time_left() < 20:
+                            ctx.notes.append('retransmission run stopped early (time budget)')
+                            return
+                        if not acks:
+                            fates = [f if f != 'ack-only' else rng.choice(FATES[:3]) for f in fates]
+                        i += 1
+                        s0 = seq0s[i % 4]
+                        sc = _scenario(rng, gen_routing(rng, d), final=final, acks=acks, fates=fates,
+                                       max_retries=len(fates) + rng.choice((0, 0, 1, 2)),
+                                       seq0=rng.randrange(64) if s0 is None else s0)
+                        if final == 'error':
+                            sc['fail_layer'] = rng.randrange(d - 1)
+                            sc['cc'] = rng.randrange(1, 256)
+                        if i % 3 == 0:
+                            sc['as_string'] = True
+                        ctx.case(('transport-retry', repr(sorted(sc.items()))), nontrivial=d >= 2)
+                        ctx.count('retransmission:depth-%d' % d)
+                        ctx.count('retransmission:faults-%d' % len(fates))
+                        for f in set(fates):
+                            ctx.count('retransmission:fate-%s' % f)
+                        ctx.count('retransmission:final-%s' % final)
+                        ctx.count('retransmission:acks-%d' % acks)
+                        ctx.count('retransmission:first-seq-%s' % ('0' if seq_of(sc) == 0 else '63' if seq_of(sc) == 63 else 'other'))
+                        judge_transport_retry(ctx, drv, sc)
+                        if i == 40:
+                            ctx.sample({'op': 'transport-retry', 'scenario': sc})
+
+
+def seq_of(sc):
+    return (sc['seq0'] + 1) % 64
 
 
 # ---------------------------------------------------------------------------------------
@@ -1122,6 +1333,7 @@ def run(ctx):
     _run_transport_faults(ctx, drv, ctx.rng('c09-faults'), depths)
     _run_transport(ctx, drv, rng, depths, 12 if quick else 60)
     _run_transport_codes(ctx, drv, rng)
+    _run_transport_retry(ctx, drv, ctx.rng('c09-retry'), depths, 4 if quick else 30)
 
 
 def search(ctx):
@@ -1145,6 +1357,8 @@ def search(ctx):
         _run_transport_faults(ctx, drv, rng, [2, 3, 4, 5])
     if not ctx.violations:
         _run_transport(ctx, drv, rng, [1, 2, 3, 4, 5], 6)
+    if not ctx.violations:
+        _run_transport_retry(ctx, drv, rng, [1, 2, 3, 4, 5], 1)
 
 
 def replay(ctx, v):
@@ -1218,6 +1432,15 @@ def replay(ctx, v):
         for path, form in sc.get('history') or []:
             print('  the same Target object was routed before (%s): %s' % (form, [tuple(r) for r in path]))
         judge_transport(c2, drv, sc, check_model=False)
+        for x in c2.violations:
+            print('  expected %s, observed %s' % (x['expected'], x['observed']))
+    elif op == 'transport-retry':
+        sc = dict(case)
+        sc['routing'] = [tuple(r) for r in case['routing']]
+        print('Rmcp(max_retries=%d).send_and_receive_raw netFn %02xh cmd %02xh, routing %s; %s; then answered: %d bare acks, %s reply' % (
+            sc['max_retries'], sc['netfn'], sc['cmd'], sc['routing'] or 'none (not bridged)',
+            ', '.join('attempt %d: %s' % (k + 1, FATE_TEXT[f]) for k, f in enumerate(sc['fates'])), sc.get('acks', 0), sc['final']))
+        judge_transport_retry(c2, drv, sc, check_model=False, verbose=True)
         for x in c2.violations:
             print('  expected %s, observed %s' % (x['expected'], x['observed']))
     for x in c2.violations:
